@@ -245,7 +245,7 @@ fn cmd_worker() {
             let g = build(specs, &ops);
             match req["call"]["kind"].as_str().unwrap() {
                 "louvain" => algo2::louvain_call(&g, &req["call"]["args"]),
-                "louvain_repeat" => repro::louvain_repeat(&g, &req["call"]["args"]),
+                "louvain_repeat" => repro::louvain_repeat(&g, specs, &ops, &req["call"]["args"]),
                 k => serde_json::json!({"e": "UnknownCall", "v": [], "kind": k}),
             }
         });
